@@ -23,7 +23,9 @@ RULE = ("same exploration as C05 (BFS over every store order of every "
         "index/data encoding pairs; in every closed state every chunk of "
         "the grid is looked up by the specification-only reader. "
         "Big-payload family (chunks of 0..12289 bytes, 4 orders x both "
-        "buffering strategies x 24 configurations). "
+        "buffering strategies, three length patterns). Huge-grid family: "
+        "7 grids of 2^33..2^63 chunks, 7 chunks each whose identifiers have "
+        "the top bits set (beyond 2^32 and 2^53). "
         "Non-trivial states: >= 2 chunks stored.")
 ASSUMPTIONS = [
     "DESIGN.md Appendix A.1 restates the sharded format correctly "
@@ -57,6 +59,84 @@ def configs(tier):
     return out
 
 
+HUGE_GRIDS = [
+    # (log2 chunks per axis, (minishard, shard, preshift) bits)
+    (18, (1, 53, 0)), (18, (0, 54, 0)), (18, (2, 50, 2)), (21, (1, 62, 0)),
+    (11, (1, 32, 0)), (11, (3, 28, 2)), (16, (1, 47, 0)),
+]
+
+
+def _eval_huge_grid(col, logn, triple):
+    """grids of 2^33 .. 2^63 chunks (identifiers beyond 2^32 and 2^53):
+    a handful of chunks whose identifiers have the top bits set are stored;
+    the specification-only reader must find each of them"""
+    import json
+    import os
+
+    from mc.env import sandbox
+    from mc.oracle import morton_spec, shard_spec
+    from neuroglancer_scripts import accessor
+    n = 1 << logn
+    mb, sb, pb = triple
+    sharding = {"@type": "neuroglancer_uint64_sharded_v1",
+                "hash": "identity", "minishard_bits": mb, "shard_bits": sb,
+                "preshift_bits": pb, "minishard_index_encoding": "raw",
+                "data_encoding": "raw"}
+    info = {"type": "image", "data_type": "uint8", "num_channels": 1,
+            "scales": [{"key": se.KEY, "size": [n, n, n],
+                        "chunk_sizes": [[1, 1, 1]], "resolution": [1, 1, 1],
+                        "voxel_offset": [0, 0, 0], "encoding": "raw",
+                        "sharding": sharding}]}
+    pos = [(n - 1, n - 1, n - 1), (n - 1, 0, 0), (1, n - 1, 0),
+           (n // 2 + 1, 1, n - 1), (1, 0, n // 2), (0, 0, 0), (1, 1, 1)]
+    case = {"kind": "huge-grid", "log2_chunks_per_axis": logn,
+            "triple": list(triple), "any_gzip": False}
+    d = sandbox.fresh_dir("c04h")
+    try:
+        with open(os.path.join(d, "info"), "w") as f:
+            json.dump(info, f)
+        sandbox.install_atexit_capture()
+        try:
+            acc = accessor.get_accessor_for_url(d)
+            for k, (x, y, z) in enumerate(pos):
+                acc.store_chunk(bytes([k + 1]) * (k + 1), se.KEY,
+                                (x, x + 1, y, y + 1, z, z + 1))
+            with sandbox.quiet():
+                acc.close()
+        except Exception as exc:
+            col.ev(1, 1, "huge-grid-bad")
+            col.violation("C04/huge-grid/store-or-close-failed/"
+                          + type(exc).__name__, case, "stored",
+                          repr(exc)[:200])
+            return
+        finally:
+            sandbox.drop_captured_exit_handlers()
+        rd = shard_spec.SpecReader(os.path.join(d, se.KEY), sharding)
+        ok = True
+        for k, p3 in enumerate(pos):
+            cid = morton_spec.compressed_morton_code(p3, (n, n, n))
+            c2 = dict(case, position=list(p3), chunk_id=str(cid))
+            try:
+                got = rd.fetch(cid)
+            except shard_spec.SpecViolation as exc:
+                ok = False
+                col.violation("C04/huge-grid/" + exc.tag, c2,
+                              "well-formed shard", str(exc)[:200])
+                continue
+            if got != bytes([k + 1]) * (k + 1):
+                ok = False
+                col.violation("C04/huge-grid/stored-chunk-not-found-under-"
+                              "its-identifier", c2,
+                              (bytes([k + 1]) * (k + 1)).hex(),
+                              None if got is None else got.hex()[:40])
+        col.r["traces"] += 1
+        col.r["states"] += 1
+        col.r["transitions"] += len(pos)
+        col.ev(1, 1, "huge-grid-ok" if ok else "huge-grid-bad")
+    finally:
+        sandbox.rm(d)
+
+
 def units(tier):
     cf = configs(tier)
     per = 6
@@ -65,6 +145,7 @@ def units(tier):
     bc = base.big_configs()
     u += [{"kind": "big", "configs": bc[i:i + 8], "tier": tier}
           for i in range(0, len(bc), 8)]
+    u.append({"kind": "huge-grid", "tier": tier})
     return u
 
 
@@ -76,6 +157,12 @@ def space(tier):
 
 def run_unit(u):
     col = Collector()
+    if u.get("kind") == "huge-grid":
+        for logn, triple in HUGE_GRIDS:
+            _eval_huge_grid(col, logn, triple)
+        col.sample({"kind": "huge-grid", "log2_chunks_per_axis": 18,
+                    "triple": [1, 53, 0]})
+        return col.result()
     if u.get("kind") == "big":
         base.big_unit(col, u["configs"], FAMILY, pkg=False, spec=True)
         return col.result()
@@ -104,4 +191,10 @@ def run_unit(u):
 
 
 def replay(case):
+    if case.get("kind") == "huge-grid":
+        col = Collector()
+        _eval_huge_grid(col, case["log2_chunks_per_axis"],
+                        tuple(case["triple"]))
+        return [r for r in col.records()
+                if r["case"].get("position") == case.get("position")]
     return base.replay(case, family=FAMILY, pkg=False, spec=True)
